@@ -5,6 +5,8 @@ package dh
 import (
 	"bytes"
 	"fmt"
+	"runtime"
+	"strings"
 	"time"
 
 	dest "github.com/grafana/carbon-relay-ng/destination"
@@ -29,7 +31,8 @@ type Opts struct {
 }
 
 type DH struct {
-	D    *dest.Destination
+	D        *dest.Destination
+	LastDiag string
 	Key  string
 	seq  int
 	base struct{ slowConn, connDown, slowSpool, out, badPickle int64 }
@@ -73,6 +76,7 @@ func fill(o *Opts) {
 
 // Start creates and runs the destination.
 func Start(o Opts) *DH {
+	h.Init()
 	fill(&o)
 	d, err := dest.New(o.Route, matcher.Matcher{}, o.Addr, o.SpoolDir, o.Spool, o.Pickle, o.Flush, o.Reconn, o.ConnBuf, o.IoBuf,
 		o.SpoolBuf, o.SpoolMaxBytes, o.SpoolSyncEvery, o.SpoolSyncPeriod, o.SpoolSleep, o.Unspool)
@@ -83,6 +87,22 @@ func Start(o Opts) *DH {
 	x.Rebase()
 	d.Run()
 	return x
+}
+
+// Stop shuts the destination down (bounded) and then waits (bounded) until it has closed
+// its connections to the given endpoints; returns false if Shutdown did not return in time.
+func (x *DH) Stop(bound time.Duration, eps ...*ep.Endpoint) bool {
+	done := make(chan struct{})
+	go func() { x.D.Shutdown(); close(done) }()
+	select {
+	case <-done:
+	case <-time.After(bound):
+		return false
+	}
+	for _, e := range eps {
+		e.WaitPeerClosed(2 * time.Second)
+	}
+	return true
 }
 
 func (x *DH) c(suffix string) int64 { return h.Count("dest=" + x.Key + "." + suffix) }
@@ -153,6 +173,20 @@ func (x *DH) PushUntilSeen(tag string, view func() []byte, contains func(stream,
 	}
 }
 
+// Diag describes the state of the destination and its endpoint (for harness-error reports).
+func (x *DH) Diag(e *ep.Endpoint) string {
+	buf := make([]byte, 1<<20)
+	buf = buf[:runtime.Stack(buf, true)]
+	var keep []string
+	for _, g := range strings.Split(string(buf), "\n\n") {
+		if strings.Contains(g, "carbon-relay-ng/destination") {
+			keep = append(keep, g)
+		}
+	}
+	return fmt.Sprintf("incarnations=%d received=%dB out=%d slow_conn=%d conn_down=%d slow_spool=%d\n%s",
+		len(e.Incarnations()), len(e.All()), x.Out(), x.SlowConn(), x.ConnDown(), x.SlowSpool(), strings.Join(keep, "\n\n"))
+}
+
 // PlainContains: the stream contains the marker as a complete line.
 func PlainContains(stream, marker []byte) bool {
 	return bytes.Contains(stream, append(append([]byte("\n"), marker...), '\n')) || bytes.HasPrefix(stream, append(append([]byte(nil), marker...), '\n'))
@@ -168,13 +202,14 @@ func NameContains(stream, marker []byte) bool {
 // Returns the offset in e's concatenated stream after the warm-up traffic.
 func (x *DH) WaitUp(e *ep.Endpoint, timeout time.Duration) (int, bool) {
 	if !e.WaitAccept(1, timeout) {
+		x.LastDiag = "no connection accepted; " + x.Diag(e)
 		return 0, false
 	}
-	m, _, ok := x.PushUntilSeen("warm", e.All, NameContains, 5*time.Millisecond, timeout)
+	_, handed, ok := x.PushUntilSeen("warm", e.All, NameContains, 5*time.Millisecond, timeout)
 	if !ok {
+		x.LastDiag = fmt.Sprintf("none of %d warm-up markers arrived; ", len(handed)) + x.Diag(e)
 		return 0, false
 	}
-	_ = m
 	// barrier with the relay loop (the fate of the last marker is decided), then start counting from here.
 	// Late warm-up markers may still arrive: analyses ignore every name that starts with "verif.warm".
 	x.D.Flush()
